@@ -40,25 +40,25 @@ Qed.
 (* ------------------------------------------------------------------ objects for the non-vacuity Examples *)
 Definition ex_lsr_pod : pod :=
   mkPod [(K_QOS, QoSLSR)] (Some PriorityProdValueMin) EmptyString []
-        [mkC false [(R_CPU, 2 * nano); (R_MEM, 4096 * nano)] [(R_CPU, 2 * nano)]] [] AnnAbsent.
+        [mkC false [(R_CPU, 2 * nano); (R_MEM, 4096 * nano)] [(R_CPU, 2 * nano)]] [] None AnnAbsent [].
 Definition ex_be_prod_pod : pod :=
   mkPod [(K_QOS, QoSBE)] (Some PriorityProdValueMax) EmptyString []
-        [mkC false [(R_BCPU, 1000 * nano)] []] [] AnnAbsent.
+        [mkC false [(R_BCPU, 1000 * nano)] []] [] None AnnAbsent [].
 (* a BE pod with fractional CPU, a limit-only container and an init container *)
 Definition ex_batch_pod : pod :=
   mkPod [(K_QOS, QoSBE)] None EmptyString
         [mkC false [(R_CPU, 500000)] []]
         [mkC false [(R_CPU, 1500 * 1000000); (R_MEM, 1024 * nano)] [(R_CPU, 2 * nano)];
          mkC false [] [(R_MEM, 2048 * nano)]]
-        [(R_CPU, 100 * 1000000)] AnnAbsent.
+        [(R_CPU, 100 * 1000000)] None AnnAbsent [].
 Definition ex_profile : profile :=
-  mkProf 1 SelNil SelAll None false [] [] [] EmptyString (PcValue PriorityBatchValueMin) None.
+  mkProf 1 SelNil SelAll None false [] [] [] EmptyString (PcValue PriorityBatchValueMin) None [] [].
 Definition ex_env : env := mkEnv (Some []) 0 false false.
 Definition ex_batch_pod_admitted : pod :=
   mkPod [(K_QOS, QoSBE)] (Some PriorityBatchValueMin) EmptyString
         [mkC false [(R_BCPU, 1 * nano)] []]
         [mkC false [(R_BMEM, 1024 * nano); (R_BCPU, 1500 * nano)] [(R_BCPU, 2000 * nano)];
          mkC false [(R_BMEM, 2048 * nano)] [(R_BMEM, 2048 * nano)]]
-        [(R_BCPU, 100 * nano)]
+        [(R_BCPU, 100 * nano)] None
         (AnnSpec [(0, ((Some (1500 * nano), Some (1024 * nano)), (Some (2000 * nano), None)));
-                  (1, ((None, Some (2048 * nano)), (None, Some (2048 * nano))))]).
+                  (1, ((None, Some (2048 * nano)), (None, Some (2048 * nano))))]) [].
